@@ -169,6 +169,15 @@ impl MultiProgress {
     }
 
     fn internalize(&self, location: InsertLocation, pb: ProgressBar) -> ProgressBar {
+        // Adding a bar that is already a member has no effect
+        let member = matches!(
+            pb.state().draw_target.remote(),
+            Some((state, _)) if Arc::ptr_eq(&self.state, state)
+        );
+        if member {
+            return pb;
+        }
+
         let mut state = self.state.write().unwrap();
         let idx = state.insert(location);
         drop(state);
